@@ -317,6 +317,61 @@ def _threshold_chain(fn: ast.AST):
     return steps, last
 
 
+def _shift_count_loop(fn: ast.AST, consts):
+    """`size = S; while value > K: value >>= G; size += I` ... `return size`  ->  (S, strict-threshold K', G, I) where the loop
+    runs while value > K' (a `>=` test is converted); None when the function has no such loop"""
+    v = fn.args.args[0].arg
+
+    def const(e):
+        try:
+            t = simplify(from_ast(e, lambda nm: C(consts[nm]) if nm in consts and isinstance(consts[nm], int) else None))
+        except Exception:
+            return None
+        return t[1] if t[0] == "c" and isinstance(t[1], int) and not isinstance(t[1], bool) else None
+
+    for lp in [n for n in ast.walk(fn) if isinstance(n, ast.While)]:
+        t = lp.test
+        if not (isinstance(t, ast.Compare) and len(t.ops) == 1):
+            continue
+        K = None
+        if isinstance(t.left, ast.Name) and t.left.id == v:
+            c = const(t.comparators[0])
+            if c is not None and isinstance(t.ops[0], ast.Gt):
+                K = c
+            elif c is not None and isinstance(t.ops[0], ast.GtE):
+                K = c - 1
+        elif isinstance(t.comparators[0], ast.Name) and t.comparators[0].id == v:
+            c = const(t.left)
+            if c is not None and isinstance(t.ops[0], ast.Lt):
+                K = c
+            elif c is not None and isinstance(t.ops[0], ast.LtE):
+                K = c - 1
+        if K is None:
+            continue
+        G = None
+        ctr = None
+        inc = None
+        extra = False
+        for st in lp.body:
+            if isinstance(st, ast.AugAssign) and isinstance(st.target, ast.Name) and st.target.id == v and isinstance(st.op, ast.RShift) and const(st.value) is not None:
+                G = const(st.value)
+            elif isinstance(st, ast.Assign) and len(st.targets) == 1 and isinstance(st.targets[0], ast.Name) and st.targets[0].id == v and isinstance(st.value, ast.BinOp) \
+                    and isinstance(st.value.op, ast.RShift) and isinstance(st.value.left, ast.Name) and st.value.left.id == v and const(st.value.right) is not None:
+                G = const(st.value.right)
+            elif isinstance(st, ast.AugAssign) and isinstance(st.target, ast.Name) and st.target.id != v and isinstance(st.op, ast.Add) and const(st.value) is not None:
+                ctr, inc = st.target.id, const(st.value)
+            else:
+                extra = True
+        if G is None or ctr is None or extra or lp.orelse:
+            continue
+        inits = [const(a.value) for a in ast.walk(fn) if isinstance(a, ast.Assign) and len(a.targets) == 1 and isinstance(a.targets[0], ast.Name) and a.targets[0].id == ctr]
+        rets = [r for r in ast.walk(fn) if isinstance(r, ast.Return) and isinstance(r.value, ast.Name) and r.value.id == ctr]
+        if len(inits) != 1 or inits[0] is None or not rets:
+            continue
+        return inits[0], K, G, inc
+    return None
+
+
 def rule_L4(ctx, rule: str = "L4") -> None:
     mod = ctx.repo.mod(M_INIT)
     f = varint_facts(ctx)
@@ -362,7 +417,29 @@ def rule_L4(ctx, rule: str = "L4") -> None:
                     f"size_varint divides the bit length by {f['size_divisors']}, dump_varint shifts by {group}", "size_varint(1 << 7)")
     elif not f["size_divisors"] or f["size_pos_shape"] != "ceil":
         chain = _threshold_chain(mod.func("size_varint"))
-        if chain is None:
+        shl = _shift_count_loop(mod.func("size_varint"), mod.consts) if chain is None else None
+        if shl is not None:
+            # counting 7-bit groups by shifting: size = S + I * #{k >= 0 : value >> (G k) > K}.  It equals the number of bytes the
+            # writer emits for every positive value exactly when G is the writer's group width, S = I = 1 and K = 2**G - 1
+            S, K, G, I = shl
+            if (S, K, G, I) == (1, (1 << group) - 1, group, 1):
+                ctx.proved(rule, "size_varint:group-width", loc, f"shift loop: 1 + number of shifts by {G} while value > {hex(K)}")
+            else:
+                def model(x):
+                    n = S
+                    while x > K and n < 100:
+                        x >>= G
+                        n += I
+                    return n
+                wit = next((x for i in range(0, 10) for x in ((1 << (group * i)) - 1, 1 << (group * i), (1 << (group * i)) + 1, (1 << (group * i)) << 1)
+                            if 0 < x < (1 << 64) and model(x) != max(1, math.ceil(x.bit_length() / group))), None) if G > 0 else 1
+                if wit is None:
+                    ctx.inconclusive(rule, "size_varint:positive", f"shift loop (start {S}, while value > {K}, >>= {G}, += {I}) differs from the canonical form but no differing value found", loc)
+                else:
+                    ctx.refuted(rule, "size_varint:positive", f"loop:>{hex(K)}>>{G}+{I}from{S}", loc,
+                                f"size_varint counts groups with `while value > {hex(K)}: value >>= {G}; size += {I}` from {S}: for value {wit} it gives {model(wit) if G > 0 else '?'} but the writer emits "
+                                f"{max(1, math.ceil(wit.bit_length() / group))} byte(s) (a group holds values up to {hex((1 << group) - 1)})", f"size_varint({wit}) vs len(encode_varint({wit}))")
+        elif chain is None:
             ctx.inconclusive(rule, "size_varint:positive", f"positive branch not of the form ceil(bit_length/{group}): {f['size_pos_terms']}", loc)
         else:
             steps, last = chain
